@@ -14,13 +14,9 @@
 size_t nondet_vmemcpy_index(void);
 void *memcpy(void *dst, const void *src, size_t n) {
 	__CPROVER_assert(n == 0 || __CPROVER_w_ok(dst, n), "memcpy: destination slice writable (no write beyond the buffer)");
-	/* source readable: one read at a nondeterministic character index of the slice (CBMC 6.11's __CPROVER_r_ok() rejects
-	 * wide string literals; a real dereference is checked correctly for every kind of object) */
-# ifndef VW   /* W pass: CBMC 6.11 reports reads of wide string literals through a void pointer as out of bounds (it takes the
-                 literal's element count for its size in bytes); the source check is therefore made in the A pass only -
-                 both passes are compiled from the same text */
+	/* source readable: one read at a nondeterministic character index of the slice (a real dereference, checked by CBMC's
+	 * pointer checks; in the W pass the library's wide string literals are staged as arrays, see vlib/stage.py) */
 	{ size_t k_ = nondet_vmemcpy_index(); if (k_ < n / sizeof(URI_CHAR)) { volatile URI_CHAR c_ = ((const URI_CHAR *)src)[k_]; (void)c_; } }
-# endif
 	__CPROVER_assert(n % sizeof(URI_CHAR) == 0, "memcpy: size is a whole number of characters");
 	return dst;
 }
@@ -36,16 +32,7 @@ void *memcpy(void *dst, const void *src, size_t n) {
 	size_t i;
 	__CPROVER_assert(n % sizeof(URI_CHAR) == 0, "memcpy: size is a whole number of characters");
 	for (i = 0; i < n / sizeof(URI_CHAR); i++) {
-		URI_CHAR c_;
-# ifdef VW  /* see above: bounds of the *source* read are checked in the A pass only */
-#  pragma CPROVER check push
-#  pragma CPROVER check disable "pointer"
-#  pragma CPROVER check disable "bounds"
-# endif
-		c_ = ((const URI_CHAR *)src)[i];
-# ifdef VW
-#  pragma CPROVER check pop
-# endif
+		URI_CHAR c_ = ((const URI_CHAR *)src)[i];
 		((URI_CHAR *)dst)[i] = c_;
 	}
 	return dst;
